@@ -445,6 +445,108 @@ def sxg_cli(rep, pid):
     return n
 
 
+def cli_total(rep, pid, tier):
+    """The dump tools as parser entry points (C10): artefacts the generating tools wrote - among them a bundle of two origins
+    signed by a certificate that covers one of them, valid NOW - and damaged variants of each (truncation, bit flips), handed
+    to dump-bundle / dump-signedexchange (-verify) / dump-certurl.  A run terminates with exit status 0 or 1; a Go panic
+    (status 2 with a goroutine dump) or a hang is not an outcome (Trace_Totality)."""
+    import base64, random
+    build_cli()
+    wd = workdir(pid)
+    fix = os.path.join(wd, "fixtures")
+    shutil.rmtree(fix, ignore_errors=True)
+    info = vh(["cli-fixtures", fix])[0]
+    sd = vlib.fresh(os.path.join(wd, "scratch-total"))
+    rnd = random.Random(vlib.seed())
+    arte = []       # (tool, args before the file, file bytes, note)
+    run("gen-certurl", ["-pem", os.path.join(fix, "p256-cert1.pem"), "-ocsp", os.path.join(fix, "ocsp.der")], sd)
+    rcg, sog, seg = run("gen-certurl", ["-pem", os.path.join(fix, "p256-cert2.pem"), "-ocsp", os.path.join(fix, "ocsp.der")], sd)
+    cert = os.path.join(sd, "cert.cbor")
+    open(cert, "wb").write(sog)
+    arte.append(("dump-certurl", [], sog, "gen-certurl output"))
+    for ver in ("b1", "b2"):
+        ents = [("https://example.com/", b"<p>root</p>", "text/html"), ("https://example.com/app.js", b"console.log(1)", "text/javascript"),
+                ("https://cdn.example.net/lib.js", b"lib()", "text/javascript"), ("https://other.example/x", b"", "text/plain")]
+        har = {"log": {"version": "1.2", "creator": {"name": "verif", "version": "1"}, "entries": []}}
+        for u, body, ct in ents:
+            har["log"]["entries"].append({"startedDateTime": "2020-01-01T00:00:00.000Z", "time": 1, "request": {"method": "GET", "url": u, "httpVersion": "HTTP/1.1", "headers": [], "queryString": [], "cookies": [], "headersSize": -1, "bodySize": 0},
+                                          "response": {"status": 200, "statusText": "", "httpVersion": "HTTP/1.1", "headers": [{"name": "Content-Type", "value": ct}], "cookies": [],
+                                                       "content": {"size": len(body), "mimeType": ct, "text": body.decode()}, "redirectURL": "", "headersSize": -1, "bodySize": len(body)}, "cache": {}, "timings": {"send": 0, "wait": 0, "receive": 0}})
+        hp = os.path.join(sd, "in-%s.har" % ver)
+        json.dump(har, open(hp, "w"))
+        out = os.path.join(sd, "mixed-%s.wbn" % ver)
+        args = ["-har", hp, "-version", ver, "-o", out] + (["-primaryURL", "https://example.com/"] if ver == "b1" else [])
+        rc, so, se = run("gen-bundle", args, sd)
+        if rc != 0:
+            raise Infra("gen-bundle -har failed while preparing the totality corpus: %s" % se[-300:])
+        arte.append(("dump-bundle", [], read(out), "gen-bundle -har, two origins, %s" % ver))
+        signed = os.path.join(sd, "mixed-signed-%s.wbn" % ver)
+        rc, so, se = run("sign-bundle", ["signatures-section", "-i", out, "-o", signed, "-certificate", cert, "-privateKey", os.path.join(fix, "p256-sec1.key"),
+                                         "-validityUrl", "https://example.com/validity", "-miRecordSize", "16"], sd)
+        if rc != 0:
+            raise Infra("sign-bundle failed while preparing the totality corpus: %s" % se[-300:])
+        arte.append(("dump-bundle", [], read(signed), "signed now by a certificate covering one of two origins, %s" % ver))
+        # signed twice (two vouched subsets, the second signer covering nothing new)
+        rc, so, se = run("sign-bundle", ["signatures-section", "-i", signed, "-o", signed + "2", "-certificate", cert, "-privateKey", os.path.join(fix, "p256-sec1.key"),
+                                         "-validityUrl", "https://example.com/validity", "-miRecordSize", "4096"], sd)
+        if rc == 0:
+            arte.append(("dump-bundle", [], read(signed + "2"), "signed twice, %s" % ver))
+    open(os.path.join(sd, "payload"), "wb").write(b"<p>hello</p>" * 5)
+    for ver in ("1b1", "1b2", "1b3"):
+        out = os.path.join(sd, "x-%s.sxg" % ver)
+        rc, so, se = run("gen-signedexchange", ["-version", ver, "-uri", "https://example.com/doc.html", "-content", os.path.join(sd, "payload"), "-certificate", os.path.join(fix, "p256-cert2.pem"),
+                                                "-privateKey", os.path.join(fix, "p256-sec1.key"), "-certUrl", "https://example.com/cert.cbor", "-validityUrl", "https://example.com/validity",
+                                                "-miRecordSize", "16", "-o", out], sd)
+        if rc == 0:
+            arte.append(("dump-signedexchange", ["-verify", "-cert", cert], read(out), "gen-signedexchange output, %s" % ver))
+            arte.append(("dump-signedexchange", ["-json"], read(out), "gen-signedexchange output (-json), %s" % ver))
+    events = []
+    i = 0
+    for tool, pre, data, note in arte:
+        variants = [(data, "as written")]
+        cuts = sorted(set(list(range(0, min(len(data), 40))) + [rnd.randrange(len(data)) for _ in range(25 if tier == "quick" else 200)] + [len(data) - 1, len(data) - 8, len(data) - 9]))
+        for c in cuts:
+            if 0 <= c < len(data):
+                variants.append((data[:c], "truncated at %d" % c))
+        for _ in range(40 if tier == "quick" else 400):
+            o = rnd.randrange(len(data))
+            m = bytearray(data)
+            m[o] ^= 1 << rnd.randrange(8)
+            variants.append((bytes(m), "bit flip at %d" % o))
+        for v, vn in variants:
+            i += 1
+            fp = os.path.join(sd, "in-%d.bin" % i)
+            open(fp, "wb").write(v)
+            rc, so, se = run(tool, pre + ["-i", fp], sd, timeout=20)
+            os.unlink(fp)
+            pan = rc not in (0, 1) and (b"panic:" in se or b"goroutine " in se or b"fatal error:" in se)
+            outcome = "value" if rc == 0 else "error" if rc == 1 else "timeout" if rc == 124 else "panic" if pan else "exit status %d" % rc
+            events.append({"case": "ct%d" % i, "parser": "cli " + tool, "outcome": outcome, "alloc": 0, "n": len(v), "head": list(v[:64]), "note": "%s; %s" % (note, vn),
+                           "stderr": se.decode("latin1")[-400:] if outcome not in ("value", "error") else ""})
+    outp = os.path.join(wd, "clitotal.ndjson")
+    cases = {}
+    with open(outp, "w") as f:
+        for e in events:
+            cases[e["case"]] = e
+            f.write(json.dumps(e) + "\n")
+    n, rejects, states = trace_validate("Trace_Totality", pid + "/clitotal", outp, shards=8, timeout=3000)
+    rep.cov["states"] += states
+    rep.cov["transitions"] += states
+    rep.cov["traces_validated_against_impl"] += n
+    for rj in rejects:
+        c = cases[rj["case"]]
+        for w in rj["why"]:
+            rep.violation("clitotal:%s:%s:%s" % (c["parser"], w[:20], c["note"].split(";")[0][:60]), "%s on a %d-byte file (%s): outcome %s [%s]" % (c["parser"], c["n"], c["note"], c["outcome"], c["stderr"][-300:].replace("\n", " | ")),
+                          {"component": "clitotal", "parser": c["parser"], "note": c["note"], "n": c["n"], "why": w})
+    by = {}
+    for e in events:
+        k = "%s -> %s" % (e["parser"], e["outcome"])
+        by[k] = by.get(k, 0) + 1
+    rep.add("cli_dump_tools", runs=n, by_tool_and_outcome=by, rejected=len(rejects))
+    shutil.rmtree(sd, ignore_errors=True)
+    return n
+
+
 def check_c20(tier):
     rep = Report("C20", tier, level="model_checking")
     rep.cov["rule"] = ("tla/Cli.tla: artefact kinds, tool contracts and pipelines; TLC enumerates every pipeline (gen-bundle -dir over 13 file-name classes x b1/b2 x base URL with / "
